@@ -212,6 +212,31 @@ pub fn run(ctx: &mut Ctx, prop: &str) {
             }
         }
     }
+    // magnitude ladder: all pairs of numbers around every integer-width boundary (distinct numbers
+    // that collapse into one double must compare as that double does; distinct doubles must not
+    // collapse however large they are), and each number against the string spelling of its neighbours
+    {
+        let mut lad = al::magnitude_ladder();
+        lad.sort_by(|x, y| x.as_f64().unwrap().partial_cmp(&y.as_f64().unwrap()).unwrap());
+        for (i, a) in lad.iter().enumerate() {
+            if !ctx.mine() {
+                continue;
+            }
+            for (j, b) in lad.iter().enumerate() {
+                ctx.edge();
+                for k in ops {
+                    ctx.check(&format!("{}:ladder:L", k), &op(k, vec![a.clone(), b.clone()]), &null);
+                    ctx.check(&format!("{}:ladder:V", k), &op(k, vec![json!({"var": 0}), json!({"var": 1})]), &json!([a, b]));
+                    if (i as i64 - j as i64).abs() <= 3 {
+                        let sb = json!(b.to_string());
+                        ctx.check(&format!("{}:ladder:num-str", k), &op(k, vec![a.clone(), sb.clone()]), &null);
+                        ctx.check(&format!("{}:ladder:str-num", k), &op(k, vec![sb.clone(), a.clone()]), &null);
+                        ctx.check(&format!("{}:ladder:arr-num", k), &op(k, vec![json!([b]), a.clone()]), &null);
+                    }
+                }
+            }
+        }
+    }
     if prop == "C09" {
         let t = triple_corpus(ctx.tier_thorough);
         for a in &t {
@@ -253,4 +278,5 @@ pub fn run(ctx: &mut Ctx, prop: &str) {
             }
         }
     }
+    crate::spaces::render_probes(ctx, ops);
 }
